@@ -179,7 +179,7 @@ def execute_direct(plan: dict, ch):
     async def main():
         for cuts in plan["ops"]:
             cuts = sorted({c for c in cuts if 0 < c < len(stream)})
-            sink: list = []
+            sink = c07._Sink()  # responses are looked at when the awaiting task would run: after the read that completed them
             proto = SecureHomeKitProtocol(c07._ConnStub(sink), key, bytes(32))
             proto.result_cbs.extend(c07._RecFuture(sink, loop) for _ in range(n_http))
             prev = 0
@@ -188,11 +188,13 @@ def execute_direct(plan: dict, ch):
                 for c in cuts + [len(stream)]:
                     if c > prev:
                         proto.data_received(stream[prev:c])
+                        sink.after_read()
                     prev = c
             except Exception as e:  # noqa: BLE001
                 err = e
+            sink.after_read()
             ctx.obligations += 1
-            got = [c07._norm(x) for x in sink]
+            got = sink.items
             if err is not None:
                 ctx.violate("C05.inbound-raises", type(err).__name__, f"direct: cuts={cuts[:6]} raised {err!r} on an authentic stream ({nframes} frames, {len(stream)} B)")
             elif got != expected:
@@ -226,7 +228,7 @@ def execute_direct(plan: dict, ch):
         from refimpl import crypto as RC
 
         c2a = ch.nbytes("direct.c2a", 32)
-        proto = SecureHomeKitProtocol(c07._ConnStub([]), bytes(32), c2a)
+        proto = SecureHomeKitProtocol(c07._ConnStub(c07._Sink()), bytes(32), c2a)
         tr = _Tr()
         proto.transport = tr
         proto.loop = loop
